@@ -11,7 +11,7 @@ from harness.vlib.core import ToolFailure
 class World:
     """One in-process mypy build of the fixture + handles on everything the check needs."""
 
-    def __init__(self, annotations: list[str], funcs: list[str]):
+    def __init__(self, annotations: list[str], funcs: list[str], extra_source: str = ""):
         from mypy import build
         from mypy.modulefinder import BuildSource
         from mypy.options import Options
@@ -21,7 +21,7 @@ class World:
         opts.cache_dir = "/dev/null"
         opts.incremental = False
         opts.show_traceback = True
-        src = fixture.source(annotations)
+        src = fixture.source(annotations, extra_source)
         try:
             res = build.build([BuildSource("c08fixture.py", "c08fixture", src)], opts)
         except Exception as e:  # CompileError etc.
